@@ -593,6 +593,126 @@ def check_reencode(ctx, case, lays, model_trace=None):
 
 
 
+# ------------------------------------------------------------------ every decode ENTRY POINT
+# `from_bytes` is a classmethod defined on SoupMessage and inherited by the ten packet classes: `LogoutRequest.from_bytes(b)`,
+# `SequencedData.from_bytes(b)` … are decode calls the library offers (public, documented through `Serializable.from_bytes`) next to
+# `SoupMessage.from_bytes(b)`.  The statement's "decoding … yields an equal packet of the same type" and "decoding never returns a packet
+# of a type other than the one named by the type character" speak about decoding, not about one spelling of it, so every clause that is
+# evaluated on `SoupMessage.from_bytes` is evaluated on each of the eleven entry points.  (`<Class>.unpack` is NOT a decode entry point:
+# it is the stage the type character has already selected and takes no notice of that character; model and implementation are compared
+# on it — `Soup.unpackAs`, Extracted.soupUnpackTable — but the oracle does not judge it.)
+ENTRY_CLASSES = ['SoupMessage', 'LoginRequest', 'LoginAccepted', 'LoginRejected', 'SequencedData', 'UnSequencedData', 'Debug',
+                 'ClientHeartbeat', 'ServerHeartbeat', 'EndOfSession', 'LogoutRequest']
+def class_type_char(cls_name):
+    """type character of a packet class, from the protocol description (not from the library's registry)"""
+    return TYPE_CHAR[CLASS_KIND[cls_name]]
+
+
+def impl_decode_via(cls_name, b, as_bytearray=False):
+    """`<cls_name>.from_bytes(b)`: ('ok', n, packet) | ('err', name)"""
+    try:
+        n, m = getattr(soup(), cls_name).from_bytes(bytearray(b) if as_bytearray else b)
+        return ('ok', n, m)
+    except Exception as e:  # noqa
+        return ('err', err_name(e))
+
+
+def outcome_text(d):
+    if d[0] != 'ok':
+        return 'err ' + d[1]
+    try:
+        return 'ok ' + sx(pkt_to_sx(d[2]))
+    except Exception as e:  # noqa   -- an object that is none of the ten packet classes
+        return f'ok <{type(d[2]).__name__}:{err_name(e)}>'
+
+
+def via_failure(cls_name, b):
+    """the kind clause on one entry point and one byte string (implementation alone): None when it holds"""
+    d = impl_decode_via(cls_name, b)
+    if d[0] != 'ok':
+        return None
+    got = type(d[2]).__name__
+    if len(b) < 3:
+        return f'{cls_name}.from_bytes returned a {got} for {len(b)} bytes: there is no type character'
+    if got not in CLASS_KIND or class_type_char(got) != chr(b[2]):
+        named = next((c for c in CLASS_KIND if class_type_char(c) == chr(b[2])), None)
+        return (f'{cls_name}.from_bytes({bytes(b[:24])!r}{"…" if len(b) > 24 else ""}) returned a {got}; the type character '
+                f'{b[2:3]!r} names {named or "no packet"}')
+    return None
+
+
+def via_wf_failure(p, b):
+    """round-trip clause through every entry point for a packet p inside the documented widths and its encoding b"""
+    for c in ENTRY_CLASSES:
+        for as_ba in (False, True):
+            d = impl_decode_via(c, b, as_ba)
+            if d[0] != 'ok':
+                return c, f'{c}.from_bytes of its encoding raised {d[1]}'
+            if type(d[2]) is not type(p) or not (d[2] == p) or pkt_to_sx(d[2]) != pkt_to_sx(p):
+                return c, f'{c}.from_bytes of its encoding gave {str(d[2])[:60]!r}, the packet is {str(p)[:60]!r}'
+            if d[1] != len(b):
+                return c, f'{c}.from_bytes reported {d[1]} bytes consumed of {len(b)}'
+    return None
+
+
+def shrink_via(cls_name, b):
+    """shorter byte string with the same failing entry point: drop the tail (keeping the length prefix honest where possible)"""
+    b = bytes(b)
+    for _ in range(64):
+        cands = []
+        if len(b) > 3:
+            for n in sorted({3, 4, 3 + (len(b) - 3) // 2, len(b) - 1}):
+                if 3 <= n < len(b):
+                    cands.append(bytes([(n - 2) >> 8 & 0xff, (n - 2) & 0xff]) + b[2:n])
+                    cands.append(b[:n])
+        if len(b) >= 3 and (b[0], b[1]) != ((len(b) - 2) >> 8 & 0xff, (len(b) - 2) & 0xff):
+            cands.append(bytes([(len(b) - 2) >> 8 & 0xff, (len(b) - 2) & 0xff]) + b[2:])
+        for c in cands:
+            if via_failure(cls_name, c) is not None:
+                b = c
+                break
+        else:
+            break
+    return b
+
+
+def check_via(ctx, b, model_line):
+    """one byte string through every entry point: kind clause (oracle) + outcome per entry point vs `Soup.decodeVia` (correspondence)"""
+    got = []
+    for c in ENTRY_CLASSES:
+        got.append(outcome_text(impl_decode_via(c, b)))
+        f = via_failure(c, b)
+        if f is not None and not ctx.cov.get('_via_reported', {}).get(c):
+            ctx.cov.setdefault('_via_reported', {})[c] = True          # one minimised report per entry point is enough
+            small = shrink_via(c, b)
+            ctx.violation(via_failure(c, small) or f, {'kind': 'decode-via', 'cls': c, 'bytes': small.hex()})
+    if model_line is not None:
+        want = model_line.split(' | ')
+        if want != got:
+            i = next((j for j, (x, y) in enumerate(zip(want, got)) if x != y), 0)
+            ctx.disagree(f'soup.decvia {ENTRY_CLASSES[i]}.from_bytes: model {want[i][:70]} vs implementation {got[i][:70]}',
+                         {'kind': 'decode-via', 'cls': ENTRY_CLASSES[i], 'bytes': bytes(b).hex()})
+    if len(set(got)) > 1:
+        ctx.count('via:entry-points-differ')
+
+
+def via_boundary_inputs():
+    """the encodings every class's unpack could be tempted by: for each type character the packets of 3, 4, 5, 33 and 49 bytes
+    (the sizes of the base / LoginRejected / data / LoginAccepted / LoginRequest layouts), digits as filler so that integer columns
+    parse, plus 'A' / 'S' for the reject reason; inputs too short to have a type character"""
+    out = [b'', b'\x00', b'\x00\x01']
+    for t in b'LAJSU+RHZO':
+        for n in (3, 4, 5, 33, 49):
+            out.append(bytes([0, n - 2, t]) + b'1' * (n - 3))
+        out.append(bytes([0, 2, t]) + b'A')
+        out.append(bytes([0, 2, t]) + b'S')
+    return out
+
+
+def via_model_line(b):
+    return f'soup.decvia {sx(ENTRY_CLASSES)} {sx(bytes(b))}'
+
+
 # ------------------------------------------------------------------ one case
 def impl_encode(t):
     try:
@@ -641,6 +761,9 @@ def check_wf_packet(ctx, t, model_enc, model_dec_of):
         if dn != len(b):
             ctx.violation(f'{k}: decode reported {dn} bytes consumed of {len(b)}', full)
             break
+    vf = via_wf_failure(p, b)
+    if vf is not None:
+        ctx.violation(f'{k}: {vf[1]}', {'kind': 'wf-packet', 'packet': sx(t), 'packet_kind': k, 'entry_point': vf[0]})
     # correspondence with the Lean model
     if model_enc is not None:
         exp = 'ok ' + sx(b)
@@ -960,6 +1083,17 @@ def any_failure(case, nxt_i=0, cut=None):
             return f'decoded packet differs from the original: {str(d[2])[:60]!r} vs {str(p)[:60]!r}'
     elif exact:
         return f'decoding its own encoding raised {d[1]}'
+    for c in ENTRY_CLASSES[1:]:      # … through every entry point: never another class; an equal packet where equality is demanded
+        dv = impl_decode_via(c, b)
+        if dv[0] == 'ok':
+            if type(dv[2]) is not cls:
+                return f'{c}.from_bytes of its encoding gave a {type(dv[2]).__name__}'
+            if dv[1] != len(b):
+                return f'{c}.from_bytes reported {dv[1]} bytes consumed of {len(b)}'
+            if exact and not (dv[2] == p and pkt_to_sx(dv[2]) == pkt_to_sx(p)):
+                return f'{c}.from_bytes of its encoding differs from the original: {str(dv[2])[:60]!r} vs {str(p)[:60]!r}'
+        elif exact:
+            return f'{c}.from_bytes of its encoding raised {dv[1]}'
     # the same bytes on a stream, followed by another packet, through the library's own reader
     nt = following_packets()[nxt_i % len(following_packets())]
     nb = reference_layout(nt)
@@ -1047,7 +1181,9 @@ def run(ctx):
                        'arguments): reported length, length prefix = bytes that follow, type character, decode gives the same class '
                        '(an equal packet for debug text and data payloads), and the library\'s own reader frames it and the packet that '
                        'FOLLOWS it on the stream; plus malformed packets and decoder inputs (agreement model/implementation on result or error '
-                       'class only)')
+                       'class only); every decoder input and every encoding goes through EACH of the eleven decode entry points '
+                       '(SoupMessage.from_bytes and <Class>.from_bytes of the ten packet classes): a result is a packet of the class the type '
+                       'character names, an encoding decodes to an equal packet through every one of them')
     # ---- corpus first
     import os
     from common import VERIF
@@ -1094,9 +1230,14 @@ def run(ctx):
     forms = [any_model_form(c) for c in acases]
     alines = [f'soup.enc {sx(t)}' for t in forms if t is not None]
     aans = iter(ctx.driver.ask(alines) if ctx.driver.available else [None] * len(alines))
+    any_seeds = []
     for i, (c, t) in enumerate(zip(acases, forms)):
         ctx.case('any ' + any_repr(c)[:200], nontrivial=True, sample_every=131)
         check_any(ctx, c, next(aans) if t is not None else None, nxt_i=i, cut=(None if i % 3 else rng.randrange(1 << 16)))
+        if i % 5 == 0:
+            r = any_build(c)
+            if r[0] == 'ok' and isinstance(r[2], (bytes, bytearray)) and len(r[2]) < 120:
+                any_seeds.append(bytes(r[2]))
     # ---- one packet object encoded, changed, encoded again (every kind x field x origin of the object x kind of change)
     pool = {}
     for t in wf:
@@ -1117,11 +1258,15 @@ def run(ctx):
         check_reencode(ctx, c, lans[pos:pos + len(st)], oans[ci])
         pos += len(st)
     # ---- decoder on arbitrary bytes
-    dec_inputs = [bytes.fromhex(c['bytes']) for c in corpus if c.get('kind') == 'decode-bytes']
+    dec_inputs = [bytes.fromhex(c['bytes']) for c in corpus if c.get('kind') in ('decode-bytes', 'decode-via')]
+    dec_inputs += via_boundary_inputs()
     dec_inputs += seeds[:400]
+    dec_inputs += any_seeds[:400]
     dec_inputs += [gen_decode_input(rng, seeds) for _ in range(n_dec)]
     dans = ctx.driver.ask([f'soup.dec {sx(b)}' for b in dec_inputs]) if ctx.driver.available else [None] * len(dec_inputs)
-    for b, m in zip(dec_inputs, dans):
+    vans = ctx.driver.ask([via_model_line(b) for b in dec_inputs]) if ctx.driver.available else [None] * len(dec_inputs)
+    for b, m, vm in zip(dec_inputs, dans, vans):
+        check_via(ctx, b, vm)         # the same bytes through each of the eleven entry points
         ctx.case('dec ' + b[:48].hex(), nontrivial=True, sample_every=211)
         d = impl_decode(b, as_bytearray=True)
         rep = {'kind': 'decode-bytes', 'bytes': b.hex()}
@@ -1187,6 +1332,15 @@ def replay(ctx, path):
         print('packet:', any_repr(c)[:300])
         print('implementation:', (r[0], r[1], bytes(r[2])[:60].hex()) if r[0] == 'ok' else r, '\nmodel:', (m or '-')[:200])
         print('framing clauses on the implementation:', any_failure(c, rep.get('next', 0), rep.get('cut')) or 'hold')
+    elif rep.get('kind') == 'decode-via':
+        b = bytes.fromhex(rep['bytes'])
+        ctx.case(rep['cls'] + ' ' + rep['bytes'][:200])
+        ctx.case('replay-marker')
+        vm = ctx.driver.ask([via_model_line(b)])[0] if ctx.driver.available else None
+        check_via(ctx, b, vm)
+        for c, w in zip(ENTRY_CLASSES, (vm.split(' | ') if vm else [None] * len(ENTRY_CLASSES))):
+            print(f'{c}.from_bytes({b[:40]!r}): implementation {outcome_text(impl_decode_via(c, b))[:100]}   model {w}')
+        print('kind clause on the implementation:', via_failure(rep['cls'], b) or 'holds')
     elif rep.get('kind') == 'decode-bytes':
         b = bytes.fromhex(rep['bytes'])
         m = ctx.driver.ask([f'soup.dec {sx(b)}'])[0]
